@@ -35,7 +35,7 @@ def mem_leaves(ctx, b, points):
     return leaves
 
 
-@rule('LOG1', ['C01', 'C04'], floor=4, template='must-pass-through')
+@rule('LOG1', ['C01', 'C04', 'C02'], floor=4, template='must-pass-through')
 def log1(ctx):
     """Every in-memory update on a success path of a mutating call is paired with a WAL entry."""
     n = 0
